@@ -238,6 +238,11 @@ class Gen:
                 if all(v is not None for v in vals):
                     if len(rows) == 1 and rng.random() < 0.5:
                         return ["@vtuple", vals]
+                    if len(rows) == 2 and rng.random() < 0.5:
+                        # the Either / Option helpers (which take iterables of values and of types)
+                        if rows[0] == [] and rng.random() < 0.5:
+                            return ["@some", vals] if i == 1 else ["@none", rows[1]]
+                        return ["@left", vals, rows[1]] if i == 0 else ["@right", rows[0], vals]
                     return ["@vsum", i, t, vals]
             return None
         if k == "@fn" and not t[3]:
@@ -1015,6 +1020,14 @@ def value_type(v, t):
         return FLOAT()
     if k == "@fndfg":
         return FN(v[1], [v[1][i] for i in v[2]])
+    if k == "@some":
+        return OPTION(*[value_type(x, None) for x in v[1]])
+    if k == "@none":
+        return OPTION(*v[1])
+    if k == "@left":
+        return ["@sum", [[value_type(x, None) for x in v[1]], list(v[2])]]
+    if k == "@right":
+        return ["@sum", [list(v[1]), [value_type(x, None) for x in v[2]]]]
     return t
 
 
